@@ -6,8 +6,9 @@ from ..core import HEADER, CASE_TYPE, CHECK, MODEL_VIEW, SHARD, CASE_TIMEOUT, ob
 ID = "C05"
 THEOREMS = ["C05_encode", "C05_reject_range", "C05_reject_target_ram", "C05_reject_source_ram",
             "C05_reject_unmapped", "C05_length", "C05_in_step",
-            "C05_text_backward", "C05_text_backward_rejected", "C05_text_forward", "C05_text_forward_rejected", "C05_engine_fail"]
-PROOF_HEADER = "From A816 Require Import Properties.C05 Properties.C05Text."
+            "C05_text_backward", "C05_text_backward_rejected", "C05_text_forward", "C05_text_forward_rejected", "C05_engine_fail",
+            "C05_oracle_accept", "C05_oracle_reject_range", "C05_oracle_reject_ram", "C05_oracle_reject_far", "C05_oracle_clause"]
+PROOF_HEADER = "From A816 Require Import Properties.C05 Properties.C05Text Properties.C05Oracle."
 
 def instantiate(gen_q):
     """Per-run: the table side conditions of the text theorems hold on the live tables."""
